@@ -4013,13 +4013,14 @@ impl Decoder {
                     // There should always be space for the U+FFFD, because
                     // otherwise we'd have gotten OutputFull already.
                     // XXX: is the above comment actually true for UTF-8 itself?
-                    // TODO: Consider having fewer bound checks here.
-                    dst[total_written] = 0xEFu8;
-                    total_written += 1;
-                    dst[total_written] = 0xBFu8;
-                    total_written += 1;
-                    dst[total_written] = 0xBDu8;
-                    total_written += 1;
+                    // The three bytes are written with a single bounds check
+                    // so that, if the caller passed a `dst` shorter than the
+                    // documented minimum and the space isn't there after all,
+                    // the panic happens before anything is stored:
+                    // `decode_to_str` must not unwind with a partial U+FFFD
+                    // left in the caller's `str`.
+                    dst[total_written..total_written + 3].copy_from_slice(b"\xEF\xBF\xBD");
+                    total_written += 3;
                 }
             }
         }
